@@ -14,7 +14,7 @@ CONFIG = {
     'C06': dict(streams=[('inj_overlap', 1200), ('td_wf', 160), ('same_session', 80), ('newreq', 160)], keep='om', extra='wabort'),
     'C07': dict(streams=[('inj_cycle', 880), ('reorder_cycle', 240), ('cycle_query', 240), ('newreq', 160), ('mid_session', 240)], keep='ov'),
     'C08': dict(streams=[('td_wf', 560), ('bu_wf', 320), ('multi', 80), ('panic', 240), ('abort_bu', 120), ('newreq', 160), ('same_abort', 80), ('fail_wf', 160)], keep='od'),
-    'C09': dict(streams=[('td_coarse', 880), ('bu_wf', 320), ('multi', 80)], keep='dv', extra='stampsrc'),
+    'C09': dict(streams=[('td_coarse', 880), ('bu_wf', 320), ('multi', 80), ('near_td', 300), ('near_bu', 200)], keep='dv', extra='stampsrc'),
     'C16': dict(streams=[('td_wf', 240), ('bu_wf', 240), ('mixed_wf', 120), ('newreq', 160), ('abort_bu', 200), ('panic', 160)], keep='oevdm', two_process=True, extra='fsclock'),
     'C17': dict(streams=[('td_wf', 480), ('bu_wf', 480), ('fail_wf', 240), ('panic', 160), ('failstamp', 160)], keep='v', extra='tracker'),
     'C18': dict(streams=[('fail_wf', 800), ('fail_bu', 500), ('fail_mixed', 300), ('fail_panic', 400)], keep='eov'),
@@ -25,6 +25,7 @@ THOROUGH_FACTOR = 12
 
 
 def make_case(rng, stream, big=False):
+    P.NEAR[0] = False
     nt = rng.randint(3, 7) if not big else rng.randint(8, 16)
     ns = rng.randint(2, 6) if not big else rng.randint(5, 12)
     if stream == 'roles':
@@ -72,12 +73,13 @@ def make_case(rng, stream, big=False):
         p = P.gen_multi_program(rng)
         steps = [['E', '0', '1'], ['S', '1', 'q', '0'], ['E', '0', '2'], ['S', '1', 'q', '0'], ['S', '1', 'q', '0']]
         return p, steps, norm_meta({}, 'td')
+    P.NEAR[0] = stream in ('near_td', 'near_bu')      # requires with the tolerance checker (a verdict depends on exactly which stamp is stored)
     exact = stream == 'td_exact' or (stream == 'panic' and rng.random() < 0.5)      # half of the panic programs use exact checkers only
     fail = stream in ('fail_wf', 'failstamp', 'fail_bu', 'fail_mixed', 'fail_panic')
     coarse = stream == 'td_coarse'
     p = P.gen_wf_program(rng, nt, exact_only=exact, allow_fail=fail, coarse_writers=coarse, norepeat=(stream in ('td_class', 'bu_class')))
     mode = 'td'
-    if stream in ('bu_wf', 'fail_bu', 'bu_class'): mode = 'bu'
+    if stream in ('bu_wf', 'fail_bu', 'bu_class', 'near_bu'): mode = 'bu'
     if stream == 'fail_mixed': mode = 'mixed'
     if stream == 'mixed_wf': mode = 'mixed'
     if stream == 'inj_hidden':
